@@ -14,8 +14,9 @@ CONFIG = dict(
                "correspondence stream); harness glue (case decoding, Arc identity -> index). Modelled, not verified: hash-map "
                "iteration order (notifications of one call are compared as a set keyed by prefix), sort_unstable tie order, u32 "
                "wrap of next_path_id, one shard only (dest_id shard bits = 0).",
-    lean_modules=["Rbgp.Rib.PropsC06"],
+    lean_modules=["Rbgp.Rib.PropsC06", "Rbgp.Rib.PropsCodec", "Rbgp.Rib.PropsAlloc"],
     theorems=[
+        "Rbgp.Rib.PropsCodec.c06_check_run_ok_of_codec",
         "Rbgp.Rib.PropsC06.check_run_ok",
         "Rbgp.Rib.PropsC06.fold_full_eq",
         "Rbgp.Rib.PropsC06.fold_nonaddpath_best_eq",
@@ -23,6 +24,11 @@ CONFIG = dict(
         "Rbgp.Rib.PropsC06.ids_unique",
         "Rbgp.Rib.PropsC06.deferral_silent",
         "Rbgp.Rib.PropsC06.end_deferral_complete",
+        "Rbgp.Rib.PropsC06.notified_id",
+        "Rbgp.Rib.PropsC06.one_per_prefix",
+        "Rbgp.Rib.PropsC06.id_stable",
+        "Rbgp.Rib.PropsAlloc.alloc_lowest_free",
+        "Rbgp.Rib.PropsAlloc.dealloc_frees_exactly",
     ],
     harness=dict(kind="pt", bin="c06"),
     profiles=["debug", "release"], profile_in_case=True,
